@@ -3,12 +3,17 @@
 //!     single-byte substitution} -> no panic, bounded allocation;
 //! (b) connection stages fed through the real entry points over a scripted transport:
 //!     frame::recv_proto, preface::accept, noise handshake and transport frames, every mux frame
-//!     header in three stream states, mux handshakes.
+//!     header in three stream states, mux handshakes;
+//! (c) well-formed but semantically extreme messages through the real consumers: peer-announced
+//!     block store states through the gossip fetch queue, validator address announcements through
+//!     the address book, consensus messages signed by a committee member through the replica.
 use std::{collections::BTreeMap, sync::Arc};
 
 use serde_json::json;
-use zksync_concurrency::{ctx, limiter, scope, time};
+use zksync_concurrency::{ctx, limiter, scope, sync, time};
+use zksync_consensus_engine::{BlockStoreState, Last};
 use zksync_consensus_network::verif as nv;
+use zksync_consensus_roles::validator::{self, v2, BlockNumber, Payload};
 
 use super::{util, wiretypes};
 use crate::{
@@ -148,12 +153,13 @@ fn frame_bytes(body: &[u8]) -> Vec<u8> {
     v
 }
 
-fn stage_case(st: &mut Stats, class: &str, desc: String, replay: serde_json::Value, alloc_limit: usize, f: impl FnOnce() -> Result<(), String>) {
+fn stage_case(st: &mut Stats, class: &str, desc: String, replay: serde_json::Value, alloc_limit: usize, f: impl FnOnce() -> Result<(), String>) -> bool {
     st.cases += 1;
     alloc::reset();
     let r = catch(f);
     let (peak, _) = alloc::peak();
     st.max_alloc = st.max_alloc.max(peak);
+    let panicked = r.is_err();
     match r {
         Ok(Ok(())) => st.ok += 1,
         Ok(Err(_)) => st.err += 1,
@@ -166,6 +172,7 @@ fn stage_case(st: &mut Stats, class: &str, desc: String, replay: serde_json::Val
         let k = format!("{class}_alloc");
         st.viol.entry(k.clone()).or_insert_with(|| (format!("[{k}] {desc}: allocated {peak} bytes (limit {alloc_limit})"), replay));
     }
+    !panicked
 }
 
 /// frame::recv_proto over a transport that delivers `input` and then EOF.
@@ -415,6 +422,224 @@ fn stage_mux(tier: Tier, st: &mut Stats) -> u64 {
     n
 }
 
+// ---------------------------------------------------------------------------------------------
+// (c) semantically extreme, well-formed messages through the real consumers
+
+const B64: [u64; 6] = [0, 1, 2, u64::MAX / 2, u64::MAX - 1, u64::MAX];
+
+fn semantic_world(seed: u64) -> crate::bftsim::World {
+    let c = util::committee(seed, &[1, 1, 1, 1, 1, 1]);
+    crate::bftsim::World { c, proposals: vec![Payload(vec![0x58])], invalid_payload: Payload(vec![0xBA]) }
+}
+
+/// (c1) A peer announces (push_block_store_state; only `verify()`-ed, never authenticated) the
+/// state `state`; our node wants block `n`. The real fetch queue decides whether to ask that peer.
+/// Cases where the queue's decision differs from the announced range are returned (they are C19's
+/// business: "requests go only to peers that have the block"), panics are recorded in `st`.
+pub fn stage_semantic_fetch_mismatches(seed: u64) -> (u64, Vec<(String, serde_json::Value)>) {
+    let mut st = Stats::default();
+    let m = stage_semantic_fetch(&mut st, &semantic_world(seed));
+    (st.cases, m)
+}
+
+fn stage_semantic_fetch(st: &mut Stats, w: &crate::bftsim::World) -> Vec<(String, serde_json::Value)> {
+    let mut mismatches = vec![];
+    let mut lasts: Vec<(String, Option<Last>)> = vec![("None".into(), None)];
+    for &l in &B64 {
+        lasts.push((format!("PreGenesis({l})"), Some(Last::PreGenesis(BlockNumber(l)))));
+        // a certificate nobody checks at this stage: the announced range end is its block number
+        let vote = v2::ReplicaCommit { view: w.view(l), proposal: v2::BlockHeader { number: BlockNumber(l), payload: Payload(vec![1]).hash() } };
+        lasts.push((format!("FinalV2(unsigned certificate for block {l} in view {l})"), Some(Last::FinalV2(w.commit_qc(&vote, 0)))));
+    }
+    for &first in &B64 {
+        for (lname, last) in &lasts {
+            let state = BlockStoreState { first: BlockNumber(first), last: last.clone() };
+            let verified = catch(|| state.verify().is_ok());
+            let verified = match verified {
+                Ok(v) => v,
+                Err(p) => {
+                    let k = format!("semantic_fetch_panic:{}", panic_class(&p));
+                    st.viol.entry(k.clone()).or_insert_with(|| (format!("[{k}] BlockStoreState{{first: {first}, last: {lname}}}.verify() panicked: {}", p.lines().next().unwrap_or("")), json!({"harness":"c10-semantic"})));
+                    continue;
+                }
+            };
+            if !verified {
+                st.cases += 1;
+                st.err += 1;
+                continue;
+            }
+            for &n in &B64 {
+                let want = last.as_ref().map_or(false, |l| {
+                    let l = match l {
+                        Last::PreGenesis(x) => x.0,
+                        Last::FinalV2(q) => q.message.proposal.number.0,
+                    };
+                    first <= n && n <= l
+                });
+                let got = Arc::new(std::sync::Mutex::new(None::<u64>));
+                let (got2, state2) = (got.clone(), state.clone());
+                let desc = format!("a peer announces the block store state {{first: {first}, last: {lname}}} while block {n} is wanted");
+                let completed = stage_case(st, "semantic_fetch", desc.clone(), json!({"harness":"c10-semantic","part":"fetch","first":first,"last":lname,"wanted":n}), 1 << 20, move || {
+                    on_rt(|ctx, idle, _clock| {
+                        Box::pin(async move {
+                            let q = nv::VFetchQueue::default();
+                            let avail = sync::watch::channel(state2).0;
+                            let (q, avail, got2, idle) = (&q, &avail, &got2, &idle);
+                            let r: anyhow::Result<()> = async move {
+                                scope::run!(ctx, |ctx, s| async move {
+                                    s.spawn_bg(async move {
+                                        let _ = q.request(ctx, BlockNumber(n)).await;
+                                        Ok(())
+                                    });
+                                    s.spawn_bg(async move {
+                                        let mut sub = avail.subscribe();
+                                        if let Ok((m, c)) = q.accept_block(ctx, &mut sub).await {
+                                            *got2.lock().unwrap() = Some(m.0);
+                                            c.success();
+                                        }
+                                        Ok(())
+                                    });
+                                    idle.settle().await;
+                                    Ok(())
+                                })
+                                .await
+                            }
+                            .await;
+                            r.map_err(|e| format!("{e:#}"))
+                        })
+                    })
+                });
+                let got = *got.lock().unwrap();
+                if completed && got != want.then_some(n) {
+                    mismatches.push((format!("{desc}: the fetch queue handed out {got:?}, the announced range {} the block", if want { "contains" } else { "does not contain" }), json!({"harness":"c19-extreme","first":first,"last":lname,"wanted":n})));
+                }
+            }
+        }
+    }
+    mismatches
+}
+
+/// (c2) Address announcements signed by committee members / outsiders with extreme versions and
+/// timestamps, offered to the real address book in every order of a small batch.
+fn stage_semantic_addrs(st: &mut Stats, w: &crate::bftsim::World) {
+    let addrs = wiretypes::net_addresses();
+    let outsider: validator::SecretKey = {
+        use rand::Rng as _;
+        util::rng(7, 0xc10).gen()
+    };
+    let keys = [&w.c.keys[0], &w.c.keys[1], &outsider];
+    // singles and ordered pairs of extreme announcements
+    let picks: Vec<usize> = (0..addrs.len()).step_by(3).collect();
+    let mut batches: Vec<Vec<(usize, usize)>> = vec![vec![]];
+    for &a in &picks {
+        for k in 0..keys.len() {
+            batches.push(vec![(k, a)]);
+        }
+    }
+    for &a in &picks {
+        for &b in &picks {
+            batches.push(vec![(0, a), (0, b)]);
+            batches.push(vec![(0, a), (1, b)]);
+        }
+    }
+    for batch in batches {
+        let signed: Vec<Arc<validator::Signed<validator::NetAddress>>> = batch.iter().map(|&(k, a)| Arc::new(keys[k].sign_msg(addrs[a].clone()))).collect();
+        let desc = format!("push_validator_addrs with {:?}", batch.iter().map(|&(k, a)| format!("key#{k} signs {:?}", addrs[a])).collect::<Vec<_>>());
+        let sched = w.c.schedule.clone();
+        stage_case(st, "semantic_addrs", desc, json!({"harness":"c10-semantic","part":"addrs","batch":batch}), 1 << 20, move || {
+            on_rt(|_ctx, _idle, _clock| {
+                Box::pin(async move {
+                    let watch = nv::VAddrsWatch::default();
+                    let r1 = watch.update(&sched, &signed).await;
+                    // a second delivery of the same batch (peers repeat themselves)
+                    let r2 = watch.update(&sched, &signed).await;
+                    let _ = watch.current();
+                    r1.and(r2)
+                })
+            })
+        });
+    }
+}
+
+/// (c3) Consensus messages signed by one committee member (weight <= max faulty weight) whose views
+/// and block numbers are extreme, through the real replica handlers (bftsim::step), from the
+/// initial state and from a state in which the replica has already voted.
+fn stage_semantic_replica(st: &mut Stats, w: &crate::bftsim::World) {
+    use crate::bftsim::{step, Input, Local, Policy};
+    let z = 5usize; // the signing (faulty) member; the replica under test is 0
+    let p = w.proposals[0].clone();
+    let mut msgs: Vec<(String, crate::bftsim::SignedMsg)> = vec![];
+    for &v in &B64 {
+        for &n in &B64 {
+            let vote = w.commit_vote(v, n, &p);
+            msgs.push((format!("ReplicaCommit(view {v}, block {n})"), w.signed_commit(z, &vote)));
+            let own_qc = w.commit_qc(&vote, 1 << z);
+            for (hv, hq, name) in [(None, None, "no high vote, no high qc"), (Some(vote.clone()), None, "high vote only"), (Some(vote.clone()), Some(own_qc.clone()), "high vote and a certificate signed by itself only"), (None, Some(own_qc.clone()), "certificate signed by itself only")] {
+                for &tv in &[0u64, v] {
+                    let t = w.timeout_vote(tv, hv.clone(), hq.clone());
+                    msgs.push((format!("ReplicaTimeout(view {tv}; {name} for view {v}, block {n})"), w.signed_timeout(z, &t)));
+                    let tqc = w.timeout_qc(tv, &[(z, t.clone())]);
+                    let j = v2::ProposalJustification::Timeout(tqc);
+                    msgs.push((format!("ReplicaNewView(timeout certificate of view {tv} with one vote: {name} for view {v}, block {n})"), w.new_view(z, &j)));
+                    msgs.push((format!("LeaderProposal(timeout certificate of view {tv} with one vote: {name} for view {v}, block {n}; with payload)"), w.proposal(z, &j, Some(p.clone()))));
+                    msgs.push((format!("LeaderProposal(timeout certificate of view {tv} with one vote: {name} for view {v}, block {n}; no payload)"), w.proposal(z, &j, None)));
+                }
+            }
+            let j = v2::ProposalJustification::Commit(own_qc.clone());
+            msgs.push((format!("ReplicaNewView(commit certificate view {v}, block {n}, one signer)"), w.new_view(z, &j)));
+            msgs.push((format!("LeaderProposal(commit certificate view {v}, block {n}, one signer; payload)"), w.proposal(z, &j, Some(p.clone()))));
+            // empty and all-ones signer sets
+            let empty = w.commit_qc(&vote, 0);
+            msgs.push((format!("ReplicaNewView(commit certificate view {v}, block {n}, no signer)"), w.new_view(z, &v2::ProposalJustification::Commit(empty))));
+            let mut all = w.commit_qc(&vote, 1 << z);
+            for i in 0..w.n() {
+                all.signers.0.set(i, true);
+            }
+            msgs.push((format!("ReplicaNewView(commit certificate view {v}, block {n}, all signer bits set, one signature)"), w.new_view(z, &v2::ProposalJustification::Commit(all))));
+        }
+    }
+    // oversized / empty collections
+    {
+        let vote = w.commit_vote(1, 0, &p);
+        let mut wide = w.commit_qc(&vote, 1 << z);
+        wide.signers = v2::Signers::new(4096);
+        msgs.push(("ReplicaNewView(commit certificate with a 4096-bit signer set)".into(), w.new_view(z, &v2::ProposalJustification::Commit(wide))));
+        let mut narrow = w.commit_qc(&vote, 1 << z);
+        narrow.signers = v2::Signers::new(0);
+        msgs.push(("ReplicaNewView(commit certificate with an empty signer set)".into(), w.new_view(z, &v2::ProposalJustification::Commit(narrow))));
+        let empty_tqc = v2::TimeoutQC::new(w.view(0));
+        msgs.push(("ReplicaNewView(timeout certificate without votes)".into(), w.new_view(z, &v2::ProposalJustification::Timeout(empty_tqc.clone()))));
+        msgs.push(("LeaderProposal(timeout certificate without votes, 1 MB payload)".into(), w.proposal(z, &v2::ProposalJustification::Timeout(empty_tqc), Some(Payload(vec![7; 1 << 20])))));
+    }
+    // two starting states: initial, and after the bootstrap timeout (the replica has voted)
+    let l0 = Local::initial();
+    let l1 = step(w, 0, &l0, &Input::Timeout, &Policy::default()).local;
+    for (lname, local) in [("initial state", &l0), ("after its own timeout in view 0", &l1)] {
+        for (mname, m) in &msgs {
+            let desc = format!("replica in its {lname} receives {mname} signed by member #{z}");
+            let (local, m) = (local.clone(), m.clone());
+            stage_case(st, "semantic_replica", desc, json!({"harness":"c10-semantic","part":"replica","state":lname,"message":mname}), 64 << 20, move || {
+                let out = step(w, 0, &local, &Input::Msg(m), &Policy::default());
+                if let Some(e) = out.runner_error {
+                    return Err(e);
+                }
+                match out.outcome {
+                    Some(Ok(())) => Ok(()),
+                    Some(Err(e)) => Err(e),
+                    None => Ok(()),
+                }
+            });
+        }
+    }
+}
+
+fn stage_semantic(st: &mut Stats, seed: u64) {
+    let w = semantic_world(seed);
+    let _ = stage_semantic_fetch(st, &w);
+    stage_semantic_addrs(st, &w);
+    stage_semantic_replica(st, &w);
+}
+
 pub fn run(args: &Args) -> Report {
     let mut rep = Report::new("C10", "exploration");
     let types = wiretypes::all(args.seed, false);
@@ -429,7 +654,10 @@ pub fn run(args: &Args) -> Report {
                     decode_case(wt, &bytes, "replay", &mut st);
                 }
             }
-            "c10-mux" => stage_case(&mut st, "mux_frame", "replay".into(), rp.clone(), 64 << 20, move || run_mux_against(bytes, 2)),
+            "c10-mux" => {
+                stage_case(&mut st, "mux_frame", "replay".into(), rp.clone(), 64 << 20, move || run_mux_against(bytes, 2));
+            }
+            "c10-semantic" => stage_semantic(&mut st, args.seed),
             _ => {
                 stage_frames(args.tier, &mut st);
                 stage_preface_noise(args.tier, &mut st);
@@ -456,6 +684,11 @@ pub fn run(args: &Args) -> Report {
     stage_frames(args.tier, &mut stg);
     stage_preface_noise(args.tier, &mut stg);
     let mux_items = stage_mux(args.tier, &mut stg);
+    // (c)
+    let mut sem = Stats::default();
+    stage_semantic(&mut sem, args.seed);
+    let (semc, semok, semerr) = (sem.cases, sem.ok, sem.err);
+    stg.merge(sem);
     let unexpected_plaintext = stg.viol.keys().any(|k| k.contains("UNEXPECTED"));
     let _ = unexpected_plaintext;
     let (dc, dok, derr) = (dec.cases, dec.ok, dec.err);
@@ -475,6 +708,7 @@ pub fn run(args: &Args) -> Report {
         "decoder_cases": dc, "decoder_accepted": dok, "decoder_refused": derr,
         "stage_cases": sc, "stage_ok": sok, "stage_refused": serr,
         "mux_header_state_items": mux_items,
+        "semantic_cases": semc, "semantic_processed": semok, "semantic_refused": semerr,
         "max_allocation_bytes_per_case": ma,
         "max_decoder_allocation_ratio": mr,
         "types": types.len(),
